@@ -84,14 +84,16 @@ Proof. split; vm_compute; reflexivity. Qed.
    sections [secs] in their order, each with its entry count; the layout [lay] decides every
    blank (spaces / tabs, any number) inside a line, every line break (any non-empty mix of blanks,
    CR, LF, CR LF and comments), the case of every hexadecimal digit, the white space inside target
-   strings, bare or bracketed single targets of one-code ranges, the blanks after [ and before ].
+   strings, bare or bracketed single targets of one-code ranges, the white space after [, between
+   the strings of an array and before ] (any, also none, also line breaks and comments).
    For EVERY layout and EVERY well-formed section list (at least one section, at least one entry
    per section, codes of 1 to 4 bytes, targets of 1 to 256 UTF-16 units, arrays not empty) the
    model of the grammar of cmap_parser.rs returns exactly the sections, with nothing left over.
    Normalisation: none is needed -- the section type already is the grammar's own normal form
    (a code is its (value, length) pair, a single target is the one-element list of targets).
-   Domain of [layout]: line oriented (the tokens of one entry are separated by blanks only), which
-   is how both documents write every CMap; see C15_grammar_is_line_oriented below. *)
+   Domain of [layout]: line oriented up to the [ of an array (the tokens <code> <target>,
+   <lo> <hi> <target>, <lo> <hi> [ of one entry are separated by blanks only), which is how both
+   documents write every CMap; see C15_grammar_is_line_oriented below. *)
 Theorem C15_parse_render :
   forall lay secs, wf_sections secs -> cmap_stream (render lay secs) = POk secs [].
 Proof. exact cmap_stream_render. Qed.
@@ -179,8 +181,9 @@ Proof.
 Qed.
 
 (* ... and an unfriendly layout of the same table: tabs, CR alone, CR LF, comments (one holding
-   keywords and a %), upper and mixed case, white space inside a target string, a bracketed single
-   target, short layout lists (defaults) -- the text is as stated, and it parses to the same CMap *)
+   keywords and a %), upper and mixed case, white space inside a target string, an array whose
+   strings touch (<0066 0066><00660069>) and which runs over three lines with a comment in between,
+   short layout lists (defaults) -- the text begins as stated, and it parses to the same CMap *)
 Definition lay_odd : layout :=
   mkLayout [WComment (bs "!PS-Adobe-3.0 Resource-CMap") CRLF; WEol LF]
            [[]; [Tab; Space]]
@@ -192,11 +195,12 @@ Definition lay_odd : layout :=
               [mkLineLay [true; false; true] [] [true; true; true; true] [] false [] [] [] (WBlank Space, [WEol LF])]
               (WEol LF, []);
             mkSecLay (Space, []) (WEol LF, [WBlank Space; WBlank Space])
-              [mkLineLay [] [Tab] [true] [] false [] [((Space, []), [mkUlay [true; true; true; true] [SEol LF; SBlank Space]])] []
+              [mkLineLay [] [Tab] [true] [] false [] [([], [mkUlay [true; true; true; true] [SEol LF; SBlank Space]])] []
                          (WComment (bs "incrementing") CR, []);
-               mkLineLay [] [] [] [Space; Space] false [Tab]
-                         [((Space, []), [mkUlay [] [SBlank Space]]); ((Tab, [Space]), []); ((Space, []), [mkUlay [] []; mkUlay [false; true] [SEol CRLF]])]
-                         [Space] (WEol LF, [])]
+               mkLineLay [] [] [] [Space; Space] false [WBlank Tab]
+                         [([], [mkUlay [] [SBlank Space]]); ([], []);
+                          ([WEol CRLF; WComment (bs " fl ]") LF; WBlank Space], [mkUlay [] []; mkUlay [false; true] [SEol CRLF]])]
+                         [WEol LF] (WEol LF, [])]
               (WEol LF, [])]
            [WEol LF; WComment (bs "%EOF") LF].
 
@@ -208,6 +212,50 @@ Theorem C15_example_text_odd :
   cmap_stream (render lay_odd iso_secs) = POk iso_secs [] /\
   cmap_parse (render lay_odd iso_secs) = cmap_parse (render lay_default iso_secs).
 Proof. split; [vm_compute; reflexivity|]. split; vm_compute; reflexivity. Qed.
+
+(* What the grammar of cmap_parser.rs does NOT accept, stated on the example: PostScript would let
+   any white space or a comment stand between any two tokens and would allow further entries in the
+   dictionary; the crate's grammar is line oriented (blanks only between the tokens of an entry up
+   to the [ of an array, fixed set of metadata entries).  [layout] is restricted to what the two
+   documents themselves write; these three texts are outside it and are parse errors (replayed on
+   the crate: (res (err parse)); notes/C15.md).  Before fix: commit 2c2ca77 the strings of an array
+   also had to be separated by blanks on one line; that was a defect ([<0041><0042>] is common in
+   real files) and is repaired, see the last line. *)
+Definition iso_text (meta range_line : bytes) : bytes :=
+  bs "/CIDInit /ProcSet findresource begin
+12 dict begin
+begincmap
+/CIDSystemInfo << /Registry (Adobe) /Ordering (UCS) /Supplement 0 >> def
+/CMapName /Adobe-Identity-UCS def
+/CMapType 2 def
+" ++ meta ++ bs "1 begincodespacerange
+<0000> <ffff>
+endcodespacerange
+2 beginbfrange
+" ++ range_line ++ bs "
+<005f> <0061> [<00660066> <00660069> <00660066006c>]
+endbfrange
+1 beginbfchar
+<3a51> <d840dc3e>
+endbfchar
+endcmap
+CMapName currentdict /CMap defineresource pop
+end
+end".
+
+Theorem C15_grammar_is_line_oriented :
+  iso_text [] (bs "<0000> <005e> <0020>") = render lay_default iso_secs /\
+  cmap_parse (iso_text [] (bs "<0000>
+<005e> <0020>")) = ParseErrParse /\
+  cmap_parse (iso_text [] (bs "<0000> <005e> % incrementing
+<0020>")) = ParseErrParse /\
+  cmap_parse (iso_text (bs "/WMode 0 def
+") (bs "<0000> <005e> <0020>")) = ParseErrParse /\
+  cmap_parse (iso_text [] (bs "<0000> <005e> <0020>
+<0100> <0102> [<0041><0042>
+<0043>]")) = cmap_parse (iso_text [] (bs "<0000> <005e> <0020>
+<0100> <0102> [<0041> <0042> <0043>]")).
+Proof. repeat split; vm_compute; reflexivity. Qed.
 
 (* ---------- the pinned code (before the fix: commits) violates (1) and (4) ---------- *)
 
@@ -306,6 +354,7 @@ Print Assumptions C15_text_get_eq_spec.
 Print Assumptions C15_decodes_text.
 Print Assumptions C15_example_text.
 Print Assumptions C15_example_text_odd.
+Print Assumptions C15_grammar_is_line_oriented.
 Print Assumptions C15_pinned_split_refuted.
 Print Assumptions C15_pinned_coalesce_refuted.
 Print Assumptions C15_pinned_coalesce_array_panics.
